@@ -59,13 +59,34 @@ func run(c *core.Ctx) {
 	}
 	t0 := time.Date(2025, 1, 1, 0, 0, 0, 0, time.UTC)
 	reached := 0
-	for ai, p := range pairs {
+	// every storage-backed authority is also exercised as ONE long-lived value kept across the failed rotation,
+	// the probe and the recovery rotation (a service using the library), not only reloaded per command like the CLI
+	type asm struct {
+		km, ca string
+		long   bool
+	}
+	var asms []asm
+	for _, p := range pairs {
+		asms = append(asms, asm{p[0], p[1], false})
+	}
+	for _, p := range pairs {
+		if p[1] != authority.MemCA && (c.Thorough() || p[0] == authority.MemKM) {
+			asms = append(asms, asm{p[0], p[1], true})
+		}
+	}
+	for ai, p0 := range asms {
+		p := [2]string{p0.km, p0.ca}
 		// does this shard own any case of this assembly? cases are numbered ai*10000 + k
 		dir, err := os.MkdirTemp("", "verif-c10-")
 		if err != nil {
 			panic(err)
 		}
 		a := authority.New(p[0], p[1], dir)
+		a.LongLived = p0.long
+		aname := a.Name()
+		if p0.long {
+			aname += "(long-lived authority value)"
+		}
 		setup := func() error {
 			if err := a.Bootstrap(&doubles.FCtl{}, authority.Opts{}, authority.DefaultBootstrap(t0)); err != nil {
 				return fmt.Errorf("bootstrap: %w", err)
@@ -76,7 +97,7 @@ func run(c *core.Ctx) {
 			return nil
 		}
 		base := ai * 10000
-		c.Begin(base, a.Name()+" setup", "rotate.Bootstrap+rotate.Key", nil)
+		c.Begin(base, aname+" setup", "rotate.Bootstrap+rotate.Key", nil)
 		if err := setup(); err != nil {
 			c.Oracle(base, "rotate.Key", "fault-free-setup-failed", a.Name(), "%v", err)
 			os.RemoveAll(dir)
@@ -89,7 +110,8 @@ func run(c *core.Ctx) {
 		skc := func(h int) *rotate.SigningKeyContext {
 			return &rotate.SigningKeyContext{SigningKeyCommonName: "signingKeyCn", SigningKeySerial: big.NewInt(0), Now: t0.Add(time.Duration(h) * time.Hour)}
 		}
-		// fault-free trace
+		// fault-free trace (from the same restored state every faulted run starts from)
+		a.Restore(snap)
 		f0 := &doubles.FCtl{}
 		_, err = a.Rotate(f0, authority.Opts{}, skc(2))
 		c.Eval(3)
@@ -104,7 +126,7 @@ func run(c *core.Ctx) {
 		if h := a.Health(); h != "" {
 			c.Oracle(base, "rotate.Key", "unhealthy-after-fault-free-rotation", a.Name(), "%s", h)
 		}
-		c.Max("trace-length/"+a.Name(), int64(len(trace)))
+		c.Max("trace-length/"+aname, int64(len(trace)))
 		if c.Mine(base) {
 			c.Sample(map[string]any{"assembly": a.Name(), "fault_free_trace": trace})
 		}
@@ -140,7 +162,7 @@ func run(c *core.Ctx) {
 			if !c.Mine(idx) {
 				continue
 			}
-			gname := a.Name() + " " + fc.desc
+			gname := aname + " " + fc.desc
 			c.Begin(idx, gname, "rotate.Key", nil)
 			a.Restore(snap)
 			f := &doubles.FCtl{Faults: fc.faults}
@@ -164,7 +186,18 @@ func run(c *core.Ctx) {
 				// a single error fault that the rotation swallowed: allowed only if the state is healthy (checked below)
 				c.Count("fault-swallowed", 1)
 			}
-			wit := map[string]any{"assembly": a.Name(), "faults": fc.desc, "rotation_error": fmt.Sprint(rerr), "crashed": crashed, "log": f.Log}
+			wit := map[string]any{"assembly": aname, "faults": fc.desc, "rotation_error": fmt.Sprint(rerr), "crashed": crashed, "log": f.Log}
+			if crashed {
+				a.DropLongLived() // the process is gone
+			} else if p0.long && injected {
+				// same process, same authority value, no reload: endorsing must keep working after the failed rotation
+				if msg := a.SignProbe(t0.Add(3 * time.Hour)); msg != "" {
+					outcome = "VALUE-UNUSABLE"
+					c.Violate(core.Violation{Kind: "oracle", Entry: "rotate.Key", Site: "authority-value-unusable-after-failed-rotation", Gen: gname, Case: idx,
+						Detail: fmt.Sprintf("after rotation failed with %s (error=%v) the same authority value can no longer endorse: %s", fc.desc, rerr, msg), Witness: wit})
+				}
+				c.Eval(1)
+			}
 			if h := a.Health(); h != "" {
 				outcome = "UNHEALTHY"
 				c.Violate(core.Violation{Kind: "oracle", Entry: "rotate.Key", Site: "primary-unusable-after-fault", Gen: gname, Case: idx,
@@ -198,7 +231,7 @@ func run(c *core.Ctx) {
 				if j := strings.Index(name, ":"); j > 0 {
 					name = name[:j]
 				}
-				c.Cell("%s|%s|%d-faults|%s|%s", a.Name(), name, len(fc.faults), fc.faults[first], outcome)
+				c.Cell("%s|%s|%d-faults|%s|%s", aname, name, len(fc.faults), fc.faults[first], outcome)
 			}
 			if k%40 == 0 {
 				c.Sample(map[string]any{"case": gname, "rotation_error": fmt.Sprint(rerr), "crashed": crashed, "outcome": outcome})
